@@ -83,6 +83,7 @@ fn main() {
         ballast: None,
     };
     let mut explicit_runs = false;
+    let mut twin = false;
     let mut i = 2;
     while i < args.len() {
         match args[i].as_str() {
@@ -120,9 +121,23 @@ fn main() {
                 std::process::exit(0);
             }
             "--digest" => opt.digest = true,
+            "--twin" => twin = true,
             _ => usage(),
         }
         i += 1;
+    }
+    if twin {
+        // The optimised-build pass (`sim/target/fast/zsim`, no debug assertions, no overflow checks):
+        // the systematic part and a quarter of the seeded runs under a different seed; its summary is
+        // added to the evidence file the main pass has just written.
+        let n = opt.runs_override.unwrap_or_else(|| (prop.random_runs(tier) / 4).max(1));
+        let topt = Options { tier, seed: opt.seed ^ 0x0f57_b111d, workers: opt.workers, runs_override: Some(n), write_evidence: false, digest: opt.digest, skip_systematic: false, ballast: None };
+        let t0 = std::time::Instant::now();
+        let rc = runner::run_batch(prop.as_ref(), &topt);
+        if opt.write_evidence {
+            runner::patch_evidence_with_twin(prop.id(), rc, n, t0.elapsed().as_secs_f64());
+        }
+        std::process::exit(rc);
     }
     // Pressure pass: a slice of seeded runs executed while one more connection, whose receive buffer
     // has grown to tens of MiB, is alive in this process (one for the whole pass, so that every run
